@@ -17,6 +17,7 @@ PcAnswer(pc) ==
    pc    |-> pc,
    place |-> PlaceOf(pc),
    cand  |-> PlaceCandidates(pc),
+   shadow |-> EndSeqShadowing(pc),
    func  |-> FuncOf(pc)]
 
 LineAnswer(file, l) ==
@@ -39,10 +40,17 @@ FnAnswer(name) ==
                            ELSE {pc \in PcSet : InFunc(f, pc)}]
               : f \in {g \in DOMAIN DataFuncs : DataFuncs[g].q = name}}]
 
+RangeAnswer(file, lo, hi) ==
+  [q      |-> "range",
+   file   |-> file,
+   places |-> StmtPlacesOfFile(file, lo, hi),
+   endseq |-> EndSeqPlacesOfFile(file)]
+
 Answers ==
   [k \in DOMAIN DataPcs |-> PcAnswer(DataPcs[k])]
   \o [k \in DOMAIN DataLineQs |-> LineAnswer(DataLineQs[k][1], DataLineQs[k][2])]
   \o [k \in DOMAIN DataFnQs |-> FnAnswer(DataFnQs[k])]
+  \o [k \in DOMAIN DataRangeQs |-> RangeAnswer(DataRangeQs[k][1], DataRangeQs[k][2], DataRangeQs[k][3])]
 
 \* well-formedness of the imported table (a violation is a tool error, not a finding)
 WellFormed ==
